@@ -45,11 +45,14 @@ static void judge(const std::string& form, const Input& in, bool none_as_max, co
   Dev dv{cfg, act};
   ++n_eval; per_form[form]++; per_enc[encoding_of(form, in)]++;
   vf::crash_ctx().where = cfg + " " + bj::serialize(act);
-  static std::map<std::string, int> crashes;
-  const bool iso = needs_isolation(form, in);
+  static std::map<std::string, int> crashes, survived;
+  // a form known to crash runs in a child process until it has come back 50 times without crashing (a repaired engine:
+  // forking for each of 10^5 sub-cases would take minutes); a later crash is still reported by the crash handler
+  const bool iso = needs_isolation(form, in) && survived[form] < 50;
   if (iso && crashes[form] >= 3) { --n_eval; ++n_skipped; return; }   // routed around: the form keeps crashing (known finding)
   Run r = iso ? run_form_isolated(form, in, none_as_max) : run_form(form, in, none_as_max);
   if (iso && r.exception.rfind("crash", 0) == 0) ++crashes[form];
+  else if (iso && in.n >= 2) ++survived[form];
   if (!r.exception.empty()) { dv.add("exception", nullptr, bj::value(r.exception)); return; }
   for (auto& pb : r.problems) dv.add("output", nullptr, bj::value(pb));
   std::vector<int> edims;
